@@ -45,6 +45,11 @@ func makePair(st *vStore, cfg *RemoteConfig, bf uint) (old, nw *Mast, mdOld, mdN
 		if err != nil {
 			return nil, nil, false
 		}
+		if verifBoundOr("KEEP", 0) == 1 {
+			// the version is the in-process handle that has just been persisted (its root is now a name,
+			// or nil for a tree emptied by Delete), not a tree re-loaded from the root record
+			return t, r, true
+		}
 		t2, err := r.LoadMast(vctx, cfg)
 		verifAssert("C01.load.err", err == nil)
 		return t2, r, err == nil
@@ -346,9 +351,28 @@ func HarnessC07a() {
 	bf := uint(verifBound("BF"))
 	st := newVStore("s1")
 	cfg := symConfig(st, nil)
+	mix := verifBoundOr("CACHEMIX", 0)
+	if mix > 0 {
+		// the versions are written, and one of them is opened, through a node cache (which then holds
+		// the writer's own node objects); the other side is opened without a cache
+		cfg = symConfig(st, &vCache{})
+	}
 	old, nw, _, mdNew, rOld, rNew, ok := makePair(st, cfg, bf)
 	if !ok {
 		return
+	}
+	if mix > 0 && rOld != nil && rNew != nil {
+		plain := symConfig(st, nil)
+		var err error
+		if mix == 1 {
+			nw, err = rNew.LoadMast(vctx, plain)
+		} else {
+			old, err = rOld.LoadMast(vctx, plain)
+		}
+		verifAssert("C01.load.err", err == nil)
+		if err != nil {
+			return
+		}
 	}
 	stNew := pairNewStore
 	reachOld, c1 := reachable(st, rOld)
